@@ -3,7 +3,7 @@ open Glue
 open Frame
 open Srcgen
 
-type e2e = { units : Model.unit_ list; cmds : string list list }
+type e2e = { units : Model.unit_ list; cmds : string list list; tdb : int }
 type case = Hist of Srcgen.case | E2E of e2e
 let id = "C08"
 let rule = "traffic histories against the scripted fake source over real time: 1..3 connections (drop = FIN then close, reconnection answered +CONTINUE in \
@@ -13,7 +13,7 @@ idle windows, the end of the full sync placed in any window or never, start offs
 with the stream position sent at that time and 400 ms earlier; plus end-to-end runs of the real start path (NewDbSyncer + Sync: RDB through the worker pool, then a command stream over several databases, the source connection dropped in the middle and re-established) against fakeredis: the offsets stored in the checkpoint of every database must be the exact stream position after the last command executed there, the re-PSYNC must ask for start + bytes received + 1, every key must arrive; non-trivial = at least one acknowledgement after the full sync with bytes received, or an end-to-end run; distinct by wire line"
 
 let raw s = Model.SRaw ((if String.length s < 64 then Model.L6 else Model.L14), bytes_of_string s)
-let gen_e2e st =
+let gen_e2e st ~tdb ~trail =
   let units = [ Model.USelect (Model.L6, n_of_int 0); Model.UKey (raw "r1", Model.VStr (Model.N0, raw "v1"));
                 Model.USelect (Model.L6, n_of_int 2); Model.UKey (raw "r2", Model.VStr (Model.N0, raw "v2")) ] in
   let n = 6 + rnd_int st 14 in
@@ -28,12 +28,14 @@ let gen_e2e st =
      | _ -> cmds := [ "set"; Printf.sprintf "k%d" i; rnd_string_of st "abcdef" (1 + rnd_int st 30) ] :: !cmds)
   done;
   cmds := [ "set"; "last"; "1" ] :: !cmds;
-  E2E { units; cmds = List.rev !cmds }
+  (* with target.db set, half of the streams end with a source SELECT (rewritten to SELECT target.db): the last checkpoint belongs to it *)
+  if tdb <> -1 && trail then cmds := [ "select"; string_of_int (rnd_pick st [ 1; 2; 3 ]) ] :: !cmds;
+  E2E { units; cmds = List.rev !cmds; tdb }
 
 let gen st tier =
   let thorough = tier = "thorough" in
   List.init (if thorough then 360 else 48) (fun i -> Hist (gen_history st ~quiet:(i mod 4 <> 3)))
-  @ List.init (if thorough then 60 else 6) (fun _ -> gen_e2e st)
+  @ List.init (if thorough then 60 else 6) (fun i -> gen_e2e st ~tdb:(if i mod 3 = 2 then 5 else -1) ~trail:(i mod 6 = 5))
 
 (* F11 witness: two ticks with traffic after the full sync, then a reconnection *)
 let corpus = [ Hist
@@ -45,10 +47,10 @@ let corpus = [ Hist
 let e2e_cmd_bytes (e : e2e) = String.concat "" (List.map Incrgen.resp_bytes e.cmds)
 let to_line = function
   | Hist c -> Srcgen.to_line c
-  | E2E e -> Printf.sprintf "e2e %s %s" (hex_of_string (Rdbgen.image 9 e.units)) (hex_of_string (e2e_cmd_bytes e))
+  | E2E e -> Printf.sprintf "e2e %s %s %d" (hex_of_string (Rdbgen.image 9 e.units)) (hex_of_string (e2e_cmd_bytes e)) e.tdb
 let show = function
   | Hist c -> Srcgen.show c
-  | E2E e -> "end-to-end Sync(): RDB with 2 keys in 2 databases, then (dropped and re-established in the middle) " ^ String.concat " / " (List.map (String.concat " ") e.cmds)
+  | E2E e -> Printf.sprintf "end-to-end Sync() with target.db=%d" e.tdb ^ ": RDB with 2 keys in 2 databases, then (dropped and re-established in the middle) " ^ String.concat " / " (List.map (String.concat " ") e.cmds)
 
 let classify = function E2E _ -> Some "end-to-end" | Hist c ->
   let has a = List.exists (fun k -> List.mem a k.acts) c.conns in
@@ -69,15 +71,15 @@ let judge_e2e (e : e2e) obs =
   let rdb_db = ref 0 in
   List.iter (function
     | Model.USelect (_, n) -> rdb_db := int_of_n n
-    | Model.UKey (k, _) -> Hashtbl.replace keys (!rdb_db, string_of_bytes (Model.logical_string k)) ()
+    | Model.UKey (k, _) -> Hashtbl.replace keys ((if e.tdb = -1 then !rdb_db else e.tdb), string_of_bytes (Model.logical_string k)) ()
     | _ -> ()) e.units;
   List.iter (fun w ->
     off := !off + String.length (Incrgen.resp_bytes w);
     (match w with
      | [ "select"; d ] -> cur := int_of_string d
-     | _ :: k :: _ -> Hashtbl.replace keys (!cur, k) ()
+     | _ :: k :: _ -> Hashtbl.replace keys ((if e.tdb = -1 then !cur else e.tdb), k) ()
      | _ -> ());
-    Hashtbl.replace last !cur (1000 + !off)) e.cmds;
+    Hashtbl.replace last (if e.tdb = -1 then !cur else e.tdb) (1000 + !off)) e.cmds;
   let total = !off in
   let want_ck = List.sort compare (Hashtbl.fold (fun d o a -> (d, o) :: a) last []) in
   let expect = Printf.sprintf "checkpoint offsets %s; second PSYNC %d; %d keys" (String.concat " " (List.map (fun (d, o) -> Printf.sprintf "db%d=%d" d o) want_ck))
